@@ -511,6 +511,12 @@ def Exts.isFragmentingPayload (e : Exts) : Bool :=
 
 /-! ### `from_slice` -/
 
+/-- `Len(err.add_offset(slice.len() - rest.len()))`: the `usize` subtraction panics on underflow
+    (debug build / overflow checks), it is therefore modelled as partial. -/
+def lenErrAt (slice rest : Bytes) (err : LenError) : Fault SliceErr :=
+  if rest.length ≤ slice.length then .err (.len (err.addOffset (slice.length - rest.length)))
+  else .panic
+
 /-- number of slots of `result` the loop can still fill (termination measure). -/
 def Exts.freeSlots (r : Exts) : Nat :=
   (if r.destinationOptions.isSome then 0 else 1) +
@@ -532,7 +538,7 @@ def fromSliceLoop (slice : Bytes) (result : Exts) (rest : Bytes) :
       | some _ => .ok (result, 60, rest)
       | none =>
         match rawSliceLen rest with
-        | .error err => .error (.err (.len (err.addOffset (slice.length - rest.length))))
+        | .error err => .error (lenErrAt slice rest err)
         | .ok len =>
           match rawToHeader rest len with
           | .error f => .error f
@@ -544,7 +550,7 @@ def fromSliceLoop (slice : Bytes) (result : Exts) (rest : Bytes) :
       | some _ => .ok (result, 60, rest)
       | none =>
         match rawSliceLen rest with
-        | .error err => .error (.err (.len (err.addOffset (slice.length - rest.length))))
+        | .error err => .error (lenErrAt slice rest err)
         | .ok len =>
           match rawToHeader rest len with
           | .error f => .error f
@@ -555,7 +561,7 @@ def fromSliceLoop (slice : Bytes) (result : Exts) (rest : Bytes) :
     | some _ => .ok (result, 43, rest)
     | none =>
       match rawSliceLen rest with
-      | .error err => .error (.err (.len (err.addOffset (slice.length - rest.length))))
+      | .error err => .error (lenErrAt slice rest err)
       | .ok len =>
         match rawToHeader rest len with
         | .error f => .error f
@@ -567,7 +573,7 @@ def fromSliceLoop (slice : Bytes) (result : Exts) (rest : Bytes) :
     | some _ => .ok (result, 44, rest)
     | none =>
       match fragFromSlice rest with
-      | .error err => .error (.err (.len (err.addOffset (slice.length - rest.length))))
+      | .error err => .error (lenErrAt slice rest err)
       | .ok header =>
         fromSliceLoop slice { result with fragment := some header } (rest.drop 8) header.nextHeader
   | 51 =>
@@ -575,7 +581,7 @@ def fromSliceLoop (slice : Bytes) (result : Exts) (rest : Bytes) :
     | some _ => .ok (result, 51, rest)
     | none =>
       match authSliceLen rest with
-      | .error (.len err) => .error (.err (.len (err.addOffset (slice.length - rest.length))))
+      | .error (.len err) => .error (lenErrAt slice rest err)
       | .error (.content err) => .error (.err (.content (.ipAuth err)))
       | .ok len =>
         match authToHeader rest len with
